@@ -29,6 +29,12 @@ var (
 
 func Open(path string) (*Database, error) {
 	db, err := badger.Open(badger.DefaultOptions(path))
+	// A process killed while badger creates (or, when closing, discards) a memtable or value log file
+	// leaves a zero-length file behind. The next open sizes that file but still fails with ristretto's
+	// z.NewFile ("Create a new file"); the file is in order after that, so opening again succeeds.
+	for retries := 0; err != nil && retries < 3 && strings.Contains(err.Error(), "Create a new file"); retries++ {
+		db, err = badger.Open(badger.DefaultOptions(path))
+	}
 	if err != nil {
 		return nil, fmt.Errorf("failed to open database: %w", err)
 	}
